@@ -211,7 +211,7 @@ def h_deep(ctx, mods, shape):
 HARNESSES = {'store': h_store, 'deep': h_deep}
 
 
-RED = ['find', 'findz', 'findz_w0', 'findz_w1', 'find_ww', 'get', 'clear_entry', 'put_clse', 'put_again', 'len']
+RED = ['find', 'findz', 'findz_w0', 'findz_w1', 'find_ww', 'get', 'clear_entry', 'put_clse', 'put_again', 'put_new', 'len']
 
 
 def shapes(tier, seed):
